@@ -51,6 +51,14 @@ def run_point(job):
         part.outcome('aborted')
     part.nontrivial += 1 if lines else 0
     part.extra['assertion_groups'] += len(lines)
+    part.transitions += len(lines)          # every assertion group is one step executed inside the compiled program
+    if prop == 'C04':
+        import re  # pylint: disable=import-outside-toplevel
+        for ln in lines:
+            for num in re.findall(r'(?:histories|explored)=(\d+)', ln['detail']):
+                part.extra['histories_replayed_on_fresh_shells'] += int(num)
+            for num in re.findall(r'states=(\d+)', ln['detail']):
+                part.extra['distinct_selector_states_seen'] += int(num)
     groups = set()
     for ln in lines:
         groups.add(ln['group'])
